@@ -13,9 +13,14 @@
   `abstr a sc` is the script as the client sees it: the code of each reply it delimits, in order.
 -/
 import Nq.Lemmas.RemoteSmtp
+import Nq.Lemmas.RspawnReport
+import Nq.Lemmas.RemoteEndToEnd
+import Nq.Lemmas.RemoteWire
+import Nq.Lemmas.RemoteConnect
 
 namespace Nq.Props.C09
-open Nq Nq.SmtpOut Nq.RemoteSmtp Nq.RspawnReport Nq.Spec.RemoteVerdict Nq.Lemmas.RemoteSmtp
+open Nq Nq.SmtpOut Nq.RemoteSmtp Nq.RspawnReport Nq.RemoteConnect Nq.Spec.RemoteVerdict Nq.Lemmas.RemoteSmtp Nq.Lemmas.Rspawn
+open Nq.Lemmas.RemoteConnect
 
 /-- **Verdict classes.** For every server script, the message report has the class the rules
 require (`expect`: the first decisive event wins — greeting ≠ 220 / HELO ≠ 250 → Z; MAIL, DATA,
@@ -39,5 +44,296 @@ report is the class of the reply to the `i`-th RCPT (reply number `3+i` of the c
 none unless greeting, HELO and MAIL were accepted. -/
 theorem C09_rcpt_order (a : Args) (sc : Script) : rcptOrder (abstr a sc) (obsOf (smtpRun a sc)) = true :=
   rcptOrder_of_good _ _ (run_good a sc.wfail _)
+
+/-- **Commands in argument order.** What the server receives is — apart from a final QUIT — a prefix
+of HELO, MAIL FROM, one RCPT TO per recipient argument *in argument order*, DATA and the encoded
+message; every per-recipient report is preceded by the RCPT command of that recipient; and `K` is
+reported only after the whole encoded message and QUIT were written. (`enc` = the encoding of the
+message by `blast()`, if it has one.) -/
+theorem C09_wire_order (a : Args) (sc : Script) (enc : Bytes) (henc : ∀ e, rblast a.msg = some e → e = enc) :
+    wireOrder a enc (smtpRun a sc).wire (obsOf (smtpRun a sc)) = true :=
+  wireOrder_of_WireOK a enc _ (run_wire a sc.wfail enc henc _)
+
+/-- **A loss in the critical window is flagged and temporary.** Whenever the rules say the connection
+was lost between the final flush and the reply to the dot (`expect = lost true`: everything up to DATA
+accepted, the message complete, and then either the final write fails or the stream ends before a
+complete reply), the report is `Z…` and contains "Possible duplicate! " — never `K`. -/
+theorem C09_possible_duplicate (a : Args) (sc : Script) (h : (expect (abstr a sc)).v = .lost true) :
+    headB (smtpRun a sc).msg = cZ ∧ hasInfix dupMark (smtpRun a sc).msg = true := by
+  have := (C09_classes a sc).1
+  rw [h] at this
+  simpa [verdictOK, obsOf] using this
+
+/-- **Multi-line reply parsing.** If every complete line the server sends has at least three bytes
+before its LF, `smtpcode()` delimits exactly the replies of the line-based reading (lines whose 4th
+byte is `-` continue a reply), whatever else the lines contain and wherever the stream stops. -/
+theorem C09_framing (s : Bytes) (h : wfLines s = true) : frames .d1 [] s = specFrames s :=
+  frames_eq_specFrames s h
+
+/-- **Reply codes.** A reply that starts with three ASCII digits has their decimal value as its code
+(so the thresholds 400/500 and the tests `= 220`, `= 250` are about the number the server sent). -/
+theorem C09_code_decimal (l : Bytes) (n : Nat) (h : decCode l = some n) : codeNat l = n :=
+  codeNat_decimal l n h
+
+/-- Consequently, for a well-formed all-digit stream the codes the client acts on are the codes of the
+line-based reading (this is the abstract script the driver's oracle uses). -/
+theorem C09_spec_codes (a : Args) (sc : Script) (cs : List Nat) (h : specCodes sc.stream = some cs) :
+    (abstr a sc).codes = cs := by
+  unfold specCodes at h
+  by_cases hw : wfLines sc.stream = true
+  · simp only [hw, if_true] at h
+    simp only [abstr, abstrF, frames_eq_specFrames _ hw]
+    generalize specFrames sc.stream = fs at h
+    induction fs generalizing cs with
+    | nil => simp [decCodes] at h; simp [h]
+    | cons f fs ih =>
+      simp only [decCodes] at h
+      cases hf : decCode f with
+      | none => simp [hf] at h
+      | some c =>
+        cases hfs : decCodes fs with
+        | none => simp [hf, hfs] at h
+        | some cs' =>
+          simp [hf, hfs] at h
+          simp [← h, codeNat_decimal f c hf, ih cs' hfs]
+  · simp [hw] at h
+
+/-! ### the predicates the driver evaluates on the implementation (lenient at the QUIT corner)
+
+When the failing write is the final QUIT the oracle accepts either the current behaviour ("connection
+died") or the verdict that had already been decided; see `Nq.Spec.RemoteVerdict` and notes/C09.md,
+observation 1. For the model these follow from the strict theorems above. -/
+
+theorem C09_classes_q (a : Args) (sc : Script) : verdictOKq (abstr a sc) (obsOf (smtpRun a sc)) = true := by
+  simp [verdictOKq, (C09_classes a sc).1]
+
+theorem C09_K_sound_q (a : Args) (sc : Script) : kSoundQ (abstr a sc) (obsOf (smtpRun a sc)) = true := by
+  simp [kSoundQ, C09_K_sound a sc]
+
+theorem C09_wire_order_q (a : Args) (sc : Script) (enc : Bytes) (henc : ∀ e, rblast a.msg = some e → e = enc) (qf : Bool) :
+    wireOrderQ a enc (smtpRun a sc).wire (obsOf (smtpRun a sc)) qf = true := by
+  simp [wireOrderQ, C09_wire_order a sc enc henc]
+
+/-! ### before the connection (`qmail-remote.c main()` from the lookup result on) -/
+
+/-- **Lookup and connect trouble.** Out of memory / temporary lookup failure → `Z`; hard lookup failure,
+no address, or only addresses that are not better than this host → `D`; and when some address is
+eligible but none connects (`tcpto` skip, refused, timed out) the report is `Z` (`temp_noconn`) — in
+all these cases without any recipient report. -/
+theorem C09_connect_phase (dnsret : Int) (hostArg : Bytes) (cs : List Cand) (a : Args) (sc : Script) :
+    preOK dnsret cs (obsOf (mainRun dnsret hostArg cs a sc)) = true :=
+  preOK_mainRun dnsret hostArg cs a sc
+
+/-- a run that ends before `smtp()` never reports `K` -/
+theorem C09_preconnect_never_K (dnsret : Int) (hostArg : Bytes) (cs : List Cand) (r : Bytes)
+    (h : connectPhase dnsret hostArg cs = .report r) : headB r = cZ ∨ headB r = cD :=
+  connectPhase_report dnsret hostArg cs r h
+
+/-- the address `smtp()` talks to is the first one, in lookup order, that is better than this host's own
+preference, is not marked as recently timed out, and accepts the connection -/
+theorem C09_connect_choice (pm : Nat) (cs : List Cand) (i : Nat) (hst : Bytes) (h : tryLoop pm 0 cs = .connected i hst) :
+    ∃ c, cs[i]? = some c ∧ c.host = hst ∧ c.pref < pm ∧ c.skip = false ∧ c.conn = 0 ∧
+      ∀ j c', j < i → cs[j]? = some c' → c'.pref < pm → c'.skip = true ∨ c'.conn ≠ 0 := by
+  obtain ⟨j, c, e1, e2, e3, e4, e5, e6, e7⟩ := tryLoop_connected pm cs 0 i hst h
+  have : i = j := by omega
+  subst this
+  exact ⟨c, e2, e3, e4, e5, e6, e7⟩
+
+/-- and after the connection everything above applies with that address as `host` -/
+theorem C09_main_connected (dnsret : Int) (hostArg : Bytes) (cs : List Cand) (a : Args) (sc : Script) (i : Nat) (hst : Bytes)
+    (h : connectPhase dnsret hostArg cs = .connected i hst) :
+    mainRun dnsret hostArg cs a sc = smtpRun { a with host := hst } sc := by
+  simp [mainRun, h]
+
+/-! ### the spawner's report (`qmail-rspawn.c report()`) -/
+
+/-- **The relayed `K` is sound**: qmail-rspawn reports `K` for the delivery only if qmail-remote exited
+0 without crashing, produced output, its first report is not `h` or `s`, and the first
+NUL-terminated report that starts with K, Z or D starts with `K`. -/
+theorem C09_rspawn (wstat : Nat) (s : Bytes) : rspawnSound wstat s (rreport wstat s) = true :=
+  rspawnSound_rreport wstat s
+
+/-- crash → `Z`; exit 111 → `Z`; any other non-zero exit → `D`; no output → `Z`; otherwise one of K/Z/D -/
+theorem C09_rspawn_classes (wstat : Nat) (s : Bytes) : rspawnClasses wstat s (rreport wstat s) = true :=
+  rspawnClasses_rreport wstat s
+
+/-- **No upgrade**: after a normal exit the relayed letter is never better (K > Z > D) than the message
+result unless the recipient's own class is `s` (then it is `Z`, never `K`); `h` gives `D`; an output
+without any terminated K/Z/D report (unparseable) is never `K`. -/
+theorem C09_no_upgrade (wstat : Nat) (s : Bytes) (h1 : wstat % 128 = 0) (h2 : wstat / 256 = 0) (h3 : s ≠ []) :
+    noUpgrade s (rreport wstat s) = true :=
+  noUpgrade_rreport wstat s h1 h2 h3
+
+/-- **The relayed text contains only bytes of qmail-remote's output**: after a normal exit it is empty,
+or the text of the first report, or that followed by the text of the next report — read inside the
+collected output even when that does not end with a NUL (the code before commit 9e1dfcc copied a C
+string there and ran past the end). -/
+theorem C09_relay_within (wstat : Nat) (s : Bytes) (h1 : wstat % 128 = 0) (h2 : wstat / 256 = 0) (h3 : s ≠ []) :
+    relayWithin s (rreport wstat s) = true :=
+  relayWithin_rreport wstat s h1 h2 h3
+
+/-- the scan loop of `report()` is the declarative "first terminated record starting with K, Z or D" -/
+theorem C09_scan_spec (s : Bytes) : scan .start s = resultOf (firstKZD (records [] s)) := scan_start s
+
+/-! ### from the server's replies to the queue manager -/
+
+/-- **Output shape.** Every report qmail-remote prints is NUL-free (NULs in the server's text become
+`?`), the per-recipient reports start with `r`/`h`/`s` and the final one with `K`/`Z`/`D` — so the
+spawner, splitting at NULs, sees exactly the reports that were printed, in order. -/
+theorem C09_output_shape (a : Args) (sc : Script) (hh : NUL ∉ a.host) :
+    records [] (render (smtpRun a sc)) = (smtpRun a sc).rcpt ++ [(smtpRun a sc).msg] ∧
+    (∀ r ∈ (smtpRun a sc).rcpt, headB r = lR ∨ headB r = lH ∨ headB r = lS) ∧
+    isKZD (headB (smtpRun a sc).msg) = true := by
+  have hok : ResOK (smtpRun a sc) := run_ok a sc.wfail hh _
+  refine ⟨records_render _ ?_, fun r hr => (hok.1 r hr).2, hok.2.2⟩
+  intro x hx
+  rcases List.mem_append.mp hx with h | h
+  · exact (hok.1 x h).1
+  · simp at h; rw [h]; exact hok.2.1
+
+/-- **End to end.** If qmail-rspawn relays `K` to qmail-send for the output of a qmail-remote run
+(exit status 0), then by the class rules the server accepted the message after the final dot (`K`:
+see `C09_K_sound` for everything that implies) and accepted the first — for the spawner, the only —
+recipient. Whatever the server did, a refusal, a lost connection or a garbled reply is never
+relayed as success. -/
+theorem C09_end_to_end (a : Args) (sc : Script) (hh : NUL ∉ a.host)
+    (hK : headB (rreport 0 (render (smtpRun a sc))) = cK) :
+    (expect (abstr a sc)).v = .K ∧ (expect (abstr a sc)).rl.head? = some lR :=
+  end_to_end a sc hh hK
+
+/-- **A server that goes away is never taken for success.** If the stream contains fewer than `n+5`
+complete replies (the server disconnects or stalls anywhere up to and including the reply to the final
+dot, even in the middle of a reply), the report is not `K`. -/
+theorem C09_loss_never_K (a : Args) (sc : Script) (h : (abstr a sc).codes.length < a.rcpts.length + 5) :
+    headB (smtpRun a sc).msg ≠ cK := by
+  intro hk
+  have ks := C09_K_sound a sc
+  have hml : (obsOf (smtpRun a sc)).ml = cK := hk
+  unfold kSound at ks
+  simp only [hml, bne_self_eq_false, Bool.false_or, Bool.and_eq_true] at ks
+  have h4 := ks.1.1.1.2
+  have hn : (abstr a sc).n = a.rcpts.length := rfl
+  rw [hn] at h4
+  have : (abstr a sc).codes[4 + a.rcpts.length]? = none := by
+    apply List.getElem?_eq_none; omega
+  rw [this] at h4
+  simp [lt400] at h4
+
+/-! ### the class rules, spelled out (`expect` on scripts of a given form) -/
+
+/-- greeting other than 220: temporary failure, no recipient reports -/
+theorem C09_rule_greeting (s : AScript) (g : Nat) (rest : List Nat) (hc : s.codes = g :: rest) (hg : g ≠ 220) :
+    (expect s).rl = [] ∧ ((expect s).v = .Z ∨ (expect s).v = .lost false) := by
+  unfold expect viaQuit
+  by_cases hq : s.wfail = some .quit <;> simp [hc, hg, hq]
+
+/-- HELO reply other than 250: temporary failure -/
+theorem C09_rule_helo (s : AScript) (h : Nat) (rest : List Nat) (hc : s.codes = 220 :: h :: rest) (hh : h ≠ 250) :
+    (expect s).rl = [] ∧ ((expect s).v = .Z ∨ (expect s).v = .lost false) := by
+  unfold expect viaQuit
+  by_cases hq : s.wfail = some .quit <;> by_cases hw : s.wfail = some .helo <;> simp [hc, hh, hq, hw]
+
+/-- MAIL reply: ≥ 500 permanent, 400..499 temporary (when no write fails) -/
+theorem C09_rule_mail (s : AScript) (m : Nat) (rest : List Nat) (hc : s.codes = 220 :: 250 :: m :: rest)
+    (hw : s.wfail = none) (hm : m ≥ 400) :
+    (expect s).rl = [] ∧ (expect s).v = (if m ≥ 500 then .D else .Z) := by
+  unfold expect viaQuit
+  by_cases h5 : m ≥ 500
+  · simp [hc, hw, h5]
+  · simp [hc, hw, h5, hm]
+
+/-- every recipient refused: permanent failure, DATA is not sent -/
+theorem C09_rule_all_refused (s : AScript) (rl : List Byte) (cs : List Nat) (hw : s.wfail = none) :
+    (expData s rl false cs).v = .D := by
+  simp [expData, viaQuit, hw]
+
+/-- DATA reply: ≥ 500 permanent, 400..499 temporary -/
+theorem C09_rule_data (s : AScript) (rl : List Byte) (d : Nat) (cs : List Nat) (hw : s.wfail = none) (hd : d ≥ 400) :
+    (expData s rl true (d :: cs)).v = (if d ≥ 500 then .D else .Z) := by
+  by_cases h5 : d ≥ 500
+  · simp [expData, viaQuit, hw, h5]
+  · simp [expData, viaQuit, hw, h5, hd]
+
+/-- reply to the final dot: ≥ 500 permanent, 400..499 temporary, below 400 success -/
+theorem C09_rule_final (s : AScript) (rl : List Byte) (d f : Nat) (cs : List Nat) (hw : s.wfail = none)
+    (hd : d < 400) (he : s.msgErr = false) (hp : s.msgPartial = false) :
+    (expData s rl true (d :: f :: cs)).v = (if f ≥ 500 then .D else if f ≥ 400 then .Z else .K) := by
+  have h5 : ¬ d ≥ 500 := by omega
+  have h4 : ¬ d ≥ 400 := by omega
+  by_cases g5 : f ≥ 500
+  · simp [expData, viaQuit, hw, h5, h4, he, hp, g5]
+  · by_cases g4 : f ≥ 400
+    · simp [expData, viaQuit, hw, h5, h4, he, hp, g5, g4]
+    · simp [expData, viaQuit, hw, h5, h4, he, hp, g5, g4]
+
+/-- the server goes away: before the final flush → plain temporary failure; after DATA was accepted and
+the message sent, with no (complete) reply to the dot → temporary failure flagged as possible duplicate -/
+theorem C09_rule_lost (s : AScript) (rl : List Byte) (d : Nat) (hw : s.wfail = none)
+    (hd : d < 400) (he : s.msgErr = false) (hp : s.msgPartial = false) :
+    (expData s rl true []).v = .lost false ∧ (expData s rl true [d]).v = .lost true := by
+  have h5 : ¬ d ≥ 500 := by omega
+  have h4 : ¬ d ≥ 400 := by omega
+  simp [expData, hw, h5, h4, he, hp]
+
+/-- a failing write: HELO…DATA and buffer-full flushes of the body → plain temporary failure; the final
+flush → flagged; QUIT → plain temporary failure *whatever had been decided* (see notes/C09.md) -/
+theorem C09_rule_wfail (s : AScript) (rl : List Byte) (d f : Nat) (cs : List Nat)
+    (hd : d < 400) (he : s.msgErr = false) (hp : s.msgPartial = false) :
+    (s.wfail = some .data → (expData s rl true (d :: f :: cs)).v = .lost false) ∧
+    (s.wfail = some .body → (expData s rl true (d :: f :: cs)).v = .lost false) ∧
+    (s.wfail = some .final → (expData s rl true (d :: f :: cs)).v = .lost true) ∧
+    (s.wfail = some .quit → (expData s rl true (d :: f :: cs)).v = .lost false) := by
+  have h5 : ¬ d ≥ 500 := by omega
+  have h4 : ¬ d ≥ 400 := by omega
+  refine ⟨?_, ?_, ?_, ?_⟩ <;> intro hw
+  · simp [expData, hw]
+  · simp [expData, hw, h5, h4]
+  · simp [expData, hw, h5, h4, he, hp]
+  · by_cases g5 : f ≥ 500
+    · simp [expData, viaQuit, hw, h5, h4, he, hp, g5]
+    · by_cases g4 : f ≥ 400 <;> simp [expData, viaQuit, hw, h5, h4, he, hp, g5, g4]
+
+/-! ### Non-vacuity -/
+
+/-- two recipients, the first refused (multi-line 550), the second accepted, message accepted -/
+def exArgs : Args := { host := lit "192.0.2.25", helo := lit "me", sender := lit "s@a", rcpts := [lit "x@b", lit "y@b"],
+                       msg := lit "hi\n", msgErr := false }
+def exStream : Bytes := lit "220 a\r\n250 b\r\n250 c\r\n550-no\r\n550 such user\r\n250 d\r\n354 e\r\n250 f\r\n"
+
+/-- the same, cut inside the reply to the final dot -/
+def exCut : Bytes := lit "220 a\r\n250 b\r\n250 c\r\n550-no\r\n550 such user\r\n250 d\r\n354 e\r\n250"
+
+example : (abstr exArgs ⟨exStream, none⟩).codes = [220, 250, 250, 550, 250, 354, 250] := by decide
+example : specCodes exStream = some [220, 250, 250, 550, 250, 354, 250] := by decide
+example : (obsOf (smtpRun exArgs ⟨exStream, none⟩)).rl = [lH, lR] ∧ (obsOf (smtpRun exArgs ⟨exStream, none⟩)).ml = cK := by decide
+/-- the same conversation cut inside the reply to the final dot: temporary, flagged (the hypothesis of
+`C09_possible_duplicate` holds for its abstract script) -/
+example : (abstr exArgs ⟨exCut, none⟩).codes = [220, 250, 250, 550, 250, 354] := by decide
+example : (expect { codes := [220, 250, 250, 550, 250, 354], n := 2, msgErr := false, msgPartial := false, wfail := none }).v
+    = .lost true := by decide
+example : (obsOf (smtpRun exArgs ⟨exCut, none⟩)).ml = cZ ∧ (obsOf (smtpRun exArgs ⟨exCut, none⟩)).dup = true := by decide
+set_option maxRecDepth 20000 in
+example : render (smtpRun exArgs ⟨exCut, none⟩) =
+    lit "h192.0.2.25 does not like recipient.\nRemote host said: 550-no\n550 such user\n" ++ [0] ++ lit "r" ++ [0] ++
+    lit "ZConnected to 192.0.2.25 but connection died. Possible duplicate! (#4.4.2)\n" ++ [0] := by decide
+/-- the QUIT write fails after the message was accepted: reported as a (plain) lost connection -/
+example : (expect (abstr exArgs ⟨exStream, some .quit⟩)).v = .lost false := by decide
+/-- a reply that does not start with digits still gets a number: "1?0" counts as 250 -/
+example : codeNat (lit "1?0 x\n") = 250 := by decide
+/-- ... and a negative value wraps to a huge one (permanent failure) -/
+example : codeNat (lit "abc\n") ≥ 500 ∧ codeNat (lit "   \n") ≥ 500 := by decide
+
+example : rreport 0 (lit "r" ++ [0] ++ lit "Kaccepted\n" ++ [0]) = lit "Kaccepted\n" := by decide
+example : rreport 0 (lit "sdeferred\n" ++ [0] ++ lit "Kaccepted\n" ++ [0]) = lit "Zdeferred\n" := by decide
+example : rreport 0 (lit "hrefused\n" ++ [0] ++ lit "DGiving up\n" ++ [0]) = lit "Drefused\nGiving up\n" := by decide
+/-- unterminated second report: its text is copied up to the end of the output, not beyond -/
+example : rreport 0 (lit "r" ++ [0] ++ lit "Kab") = lit "Dab" := by decide
+example : rreport 11 (lit "r" ++ [0] ++ lit "Kok" ++ [0]) = lit "Zqmail-remote crashed.\n" := by decide
+
+/-- connect trouble: the best MX is this host itself, the only better one times out → Z -/
+example : connectPhase 0 (lit "h") [⟨lit "10.0.0.1", 0, false, false, 2⟩, ⟨lit "10.0.0.2", 10, true, false, 0⟩]
+    = .report tempNoconnRep := by decide
+example : connectPhase 0 (lit "h") [⟨lit "10.0.0.1", 0, false, true, 0⟩, ⟨lit "10.0.0.2", 0, false, false, 0⟩, ⟨lit "10.0.0.3", 5, true, false, 0⟩]
+    = .connected 1 (lit "10.0.0.2") := by decide
 
 end Nq.Props.C09
